@@ -1330,14 +1330,23 @@ func (bc *Blockchain) resetStateInternal(height uint32, stage stateChangeStage) 
 }
 
 func (bc *Blockchain) initializeNativeCache(blockHeight uint32, d *dao.Simple) error {
-	for _, c := range bc.contracts.List {
-		// Check that contract was deployed.
-		if !bc.IsHardforkEnabled(c.ActiveIn(), blockHeight) {
-			continue
-		}
-		err := c.InitializeCache(bc.IsHardforkEnabled, blockHeight, d)
-		if err != nil {
-			return fmt.Errorf("failed to initialize cache for %s: %w", c.Metadata().Name, err)
+	// Policy goes first: NEO asks it for blocked accounts while computing the
+	// committee for its own cache. On start Policy has no cache yet and answers
+	// from the storage, but after a state jump or a state reset it still has the
+	// cache of the state being left.
+	for _, policyTurn := range []bool{true, false} {
+		for _, c := range bc.contracts.List {
+			if (c.Metadata().ID == nativeids.PolicyContract) != policyTurn {
+				continue
+			}
+			// Check that contract was deployed.
+			if !bc.IsHardforkEnabled(c.ActiveIn(), blockHeight) {
+				continue
+			}
+			err := c.InitializeCache(bc.IsHardforkEnabled, blockHeight, d)
+			if err != nil {
+				return fmt.Errorf("failed to initialize cache for %s: %w", c.Metadata().Name, err)
+			}
 		}
 	}
 	return nil
